@@ -3,13 +3,13 @@
 package main
 
 import (
-	"runtime"
 	"bytes"
 	"fmt"
 	"os"
 	"os/exec"
 	"path/filepath"
 	"regexp"
+	"runtime"
 	"strconv"
 	"strings"
 
